@@ -2,6 +2,7 @@ package fileutils
 
 import (
 	"bufio"
+	"io"
 )
 
 // Readln returns a single line (without the ending \n)
@@ -45,6 +46,12 @@ func ReadUntilSemiColon(r *bufio.Reader) (string, error) {
 				lastChar = ln[i]
 			}
 		}
+	}
+	// A last line without end of line that fills the reader's buffer exactly is
+	// returned in one piece flagged as prefix: the end of file seen afterwards
+	// must not discard the complete tree that was read
+	if err == io.EOF && len(ln) > 0 && lastChar == ';' {
+		err = nil
 	}
 	return string(ln), err
 }
